@@ -7,21 +7,28 @@ Import ListNotations.
 (* for every failure kind - handler error, handler panic, unknown service, unknown method, arguments
    that do not decode, unknown serialization type - the (single) response of a two-way request has
    status Error and carries exactly that failure's text; otherwise it is a Normal response *)
-Theorem C07_failures_are_reported : forall find codec_ok decodable handler q r,
-  q_hb q = false -> q_oneway q = false -> fst (process find codec_ok decodable handler q) = [r] ->
+Theorem C07_failures_are_reported : forall find codec_ok decodable handler hmeta q r,
+  q_hb q = false -> q_oneway q = false -> fst (process find codec_ok decodable handler hmeta q) = [r] ->
   match failure_text find codec_ok decodable handler q with
   | Some e => r_status r = SError /\ r_err r = Some e
   | None => r_status r = SNormal /\ r_err r = None
   end.
 Proof. exact failures_are_reported. Qed.
 
-Theorem C07_two_way_exactly_one_stamped : forall find codec_ok decodable handler q,
+Theorem C07_two_way_exactly_one_stamped : forall find codec_ok decodable handler hmeta q,
   q_hb q = false -> q_oneway q = false ->
-  exists r, fst (process find codec_ok decodable handler q) = [r] /\ stamped q r.
+  exists r, fst (process find codec_ok decodable handler hmeta q) = [r] /\ stamped q r.
 Proof. exact two_way_exactly_one. Qed.
 
 (* the caller's side (client machine): an Error-status frame that carries the text completes the call
    with a service error of exactly that text *)
+(* the response metadata a handler sets (share.ResMetaDataKey) is carried on success and on failure alike,
+   and - the theorems above hold for every [hmeta] - never displaces the error text *)
+Theorem C07_response_metadata_is_the_handlers : forall find codec_ok decodable handler hmeta q r,
+  q_hb q = false -> q_oneway q = false -> fst (process find codec_ok decodable handler hmeta q) = [r] ->
+  r_meta r = if handler_ran find codec_ok decodable q then hmeta (q_path q) (q_meth q) (q_args q) else [].
+Proof. exact response_metadata_is_the_handlers. Qed.
+
 Theorem C07_client_sees_the_text : forall id s text pl dec codec x,
   interp (mkFrame id s false true true text pl dec codec) x = RSvcErr text.
 Proof. reflexivity. Qed.
@@ -31,5 +38,6 @@ Proof. reflexivity. Qed.
    probes the real server after every failure on the same and on another connection *)
 
 Print Assumptions C07_failures_are_reported.
+Print Assumptions C07_response_metadata_is_the_handlers.
 Print Assumptions C07_two_way_exactly_one_stamped.
 Print Assumptions C07_client_sees_the_text.
